@@ -20,7 +20,11 @@ PROP = {
                    ' Area Misc of the translator (tools/trspecs/Misc.py): UIntMath::Log2 and both de Bruijn pvLog2 variants (tables, smear lines, multiplier, shift) '
                    'are TRANSLATED from Utility.h on every run and proved equal to the machine-word models, hence to floor(log2) (C16_log2_translated, '
                    'C16_log2_32_translated); the translated log helpers of the sqrt sizing are shown to call that translated Log2 '
-                   '(C16_log_helpers_use_translated_log2), so no hand-written Log2 remains under the translated round trip.'),
+                   '(C16_log_helpers_use_translated_log2), so no hand-written Log2 remains under the translated round trip.'
+                   ' Second wave (tools/trspecs/Wave2.py, Proof/TrEqWave2Seg.lean): the capacity arithmetic of the container - segments needed by '
+                   'pvIncCapacity / pvDecCapacity, its loop test and Reserve argument, segments removed, the tests of Reserve, Shrink(capacity), AddBackCrt, '
+                   'pvIncCount and the shrink target - is translated and proved equal to the container model for every sizing '
+                   '(C16_capacity_ops_translated, C16_incCapacity_loop_translated).'),
     "level_note": ("Trusted: Lean kernel, the three standard axioms, extractor, correspondence harness (g++, -fno-access-control). Modelled not "
                    "verified: that `mSegments[s] + o` is the address of slot o of block s (pointer arithmetic), the memory manager returning "
                    "distinct live blocks (allocation ids), element construction/destruction. Shifts by 64 or more (L0 >= 64, or "
@@ -60,6 +64,8 @@ PROP = {
         "Momo.Seg.C16_log2_32_translated",
         "Momo.Seg.C16_log_helpers_use_translated_log2",
         "Momo.Seg.C16_itemCount_translated_cnst",
+        "Momo.Seg.C16_capacity_ops_translated",
+        "Momo.Seg.C16_incCapacity_loop_translated",
     ],
     # one source, eight executables (they compile and run in parallel): an ASan+UBSan build that runs every container
     # configuration, and 7 parts; part k sweeps the k-th seventh of the index ranges and runs every 7th boundary /
